@@ -175,7 +175,9 @@ def run(chk, repo, tier):
     f, paths, _ = analyse(repo, 'field._merge')
     rets = returns(paths)
     ok_sum, ok_zero, det = False, False, ''
+    sums = []
     for p in rets:
+        sums.append(False)
         for e in p.writes():
             if e.data.get('how') == 'setitem' and e.in_loop and e.data.get('aug') == 'add':
                 rhs = e.data.get('rhs')
@@ -186,8 +188,10 @@ def run(chk, repo, tier):
                 if ra is not None and ra[0] == 'attr' and ra[2] == 'data' and ka is not None and ka[0] == 'idx' \
                         and ra[1][0] == 'idx' and ra[1][2] == ka[2] and ra[1][1] == ('sym', 'fields'):
                     sl = Poly.atom(ka[1])
-                    ok_sum = is_app(ka[1], 'call:field._merge_slices')
-                    det = f'out[{fmt(key)}] += {fmt(rhs)}'
+                    # field k goes to entry k of the slice list; the list itself is the helper's (its entries are C06-b's
+                    # subject) - a list built in another way pairs the fields correctly, what it holds is not decided here
+                    sums[-1] = True if is_app(ka[1], 'call:field._merge_slices') else None
+                    det = f'out[{fmt(key)[:120]}] += {fmt(rhs)}'
                 root = e.target.single_atom() if isinstance(e.target, Poly) else None
                 t = e.target
                 while isinstance(t, Poly) and t.single_atom() is not None and is_app(t.single_atom(), 'setitem'):
@@ -196,8 +200,9 @@ def run(chk, repo, tier):
                 ok_zero = ta is not None and (is_app(ta, 'zeros') or ta[0] == 'loop')
         zs = [e for e in p.events if e.kind == 'call' and e.data.get('callee') == 'ext:numpy.zeros']
         ok_zero = ok_zero and bool(zs)
+    ok_sum = False if (not sums or any(x is False for x in sums)) else (None if any(x is None for x in sums) else True)
     chk.ob('C06-e', 'D-sum', f.key, 'every field is added (+=) at its own slice', ok_sum,
-           det or 'no `out[slices[k]] += fields[k].data` accumulation found', f.loc())
+           ('undecided: ' if ok_sum is None else '') + det if det else 'no `out[slices[k]] += fields[k].data` accumulation found', f.loc())
     chk.ob('C06-e', 'D-sum', f.key, 'accumulator starts as zeros of the merged shape', ok_zero, '', f.loc())
 
     slice_count_rule(chk, repo, 'C06-e')
@@ -868,9 +873,14 @@ def disjoint_rules(chk, repo):
                         body_states.append((p, evs_b))
         if body_states:
             ok_rec = _loop_exit_is_full_scan(repo, fd)
+        else:
+            # neither a pair test among the branch conditions, nor a restart, nor a loop that extends a group: the merge is
+            # organised in a way this rule does not follow
+            ok_rec = None
     chk.ob('C06-f', 'structural', fd.key, 'an intersecting pair is merged and the scan restarts', ok_rec,
            'return inside the pair loop is the recursive call guarded by intersect(...)' if ok_rec else
-           ('the merge restarts the scan; how the touching pair is selected is not a branch condition (undecided)' if ok_rec is None else
+           (('the merge restarts the scan; how the touching pair is selected is not a branch condition (undecided)' if inloop else
+             'undecided: no pair test, restart or group extension is visible in this function') if ok_rec is None else
             ('groups are set aside by a loop whose exit is not the outcome of a scan over all pairs: a group that has grown is not '
              'tested again against the groups already set aside' if body_states else
              'the pair loop does not restart after merging an intersecting pair')), fd.loc())
@@ -907,8 +917,9 @@ def disjoint_rules(chk, repo):
             det_ord = f'{len(ext)} group extension(s), {len(bnd)} boundary call(s), {len(st)} extent store(s) on the merging path'
         ok_ord = (ok_ord and good) if ok_ord is not None else (False if not good else None)
     chk.ob('C06-f', 'D-order', fd.key, 'group extent = boundary(group) computed after the group was extended',
-           (ok_ord and n_ord > 0) if ok_ord is not None else None,
-           det_ord or 'the extent of a merged group is not the bounding box of all its members', fd.loc())
+           (ok_ord if n_ord > 0 else None) if ok_ord is not None else None,
+           det_ord or ('the extent of a merged group is not the bounding box of all its members' if n_ord else
+                       'undecided: no merging path recognised'), fd.loc())
     params_ = set(fd.param_names())
     ok_fin = bool(final) and all(root_sym(p.ret) in params_ | {'fields'} or (isinstance(p.ret, Poly) and p.ret.single_atom() is not None
                                                                              and p.ret.single_atom()[0] in ('loop', 'sym')) for p in final)
